@@ -146,6 +146,10 @@ fn main() {
                 }
             }
         }
+        Some("one") => {
+            let tier = if args.get(4).map(String::as_str) == Some("thorough") { Tier::Thorough } else { Tier::Quick };
+            runner::run_one(&all_checks(), &args[2], &args[3], tier, args.get(5).and_then(|s| s.parse().ok()).unwrap_or(0))
+        }
         Some("replay") => runner::replay_file(args.get(2).map_or("", String::as_str), &all_checks()),
         Some("gen") => gentool::run(&args[2..]),
         Some("rt") => gentool::roundtrip(&args[2..]),
